@@ -20,6 +20,9 @@ type C16Case struct {
 	// value ("given"+ID) on the command line before --help: what the user
 	// typed is not a default and must not show up in the help
 	Given []string `json:"given,omitempty"`
+	// NoHelpFlag: the parser has no built-in help option; the program parses the
+	// command words and then calls WriteHelp itself
+	NoHelpFlag bool `json:"no_help_flag,omitempty"`
 }
 
 var _ = Register("C16", func() interface{} { return new(C16Case) }, func(c interface{}) string { return c16Oracle(c.(*C16Case)) })
@@ -38,7 +41,7 @@ func (g *c16Gen) opt(shorts map[string]bool, forceHidden bool) Opt {
 	t := g.t
 	g.n++
 	o := Opt{ID: fmt.Sprintf("o%d", g.n), Field: fmt.Sprintf("F%d", g.n)}
-	o.Kind = rapid.SampledFrom([]Kind{KString, KInt, KBool, KStringSlice, KMapSS, KFloat64, KBoolSlice}).Draw(t, "kind")
+	o.Kind = rapid.SampledFrom([]Kind{KString, KInt, KBool, KStringSlice, KMapSS, KFloat64, KBoolSlice, KFuncS, KDuration, KUint8}).Draw(t, "kind")
 	hasLong := rapid.IntRange(0, 9).Draw(t, "hasLong") < 8
 	if !hasLong || rapid.Bool().Draw(t, "hasShort") {
 		pool := []string{"a", "b", "c", "d", "e", "f", "g", "i", "j", "k", "l", "m", "n", "o", "p", "r", "s", "t", "u", "v", "w", "x", "y", "é", "λ"}
@@ -78,6 +81,11 @@ func (g *c16Gen) opt(shorts map[string]bool, forceHidden bool) Opt {
 				case o.Kind == KInt:
 					g.n++
 					o.Defaults = append(o.Defaults, fmt.Sprintf("77%04d77", g.n))
+				case o.Kind == KDuration:
+					g.n++
+					o.Defaults = append(o.Defaults, fmt.Sprintf("%dh7m", 1000+g.n))
+				case o.Kind == KUint8:
+					o.Defaults = append(o.Defaults, "213")
 				case o.Kind == KFloat64:
 					g.n++
 					o.Defaults = append(o.Defaults, fmt.Sprintf("55%04d.25", g.n))
@@ -203,7 +211,7 @@ func genC16(t *rapid.T) *C16Case {
 		d.EnvNsDelim = &dl
 	}
 	g.cmd(&d.Root, 0)
-	c := &C16Case{D: d}
+	c := &C16Case{D: d, NoHelpFlag: rapid.IntRange(0, 3).Draw(t, "noHelpFlag") == 0}
 	for _, o := range d.AllOpts() {
 		if len(o.Chain) == 1 && o.Kind == KString && o.Long != "" && len(o.Choices) == 0 && rapid.IntRange(0, 5).Draw(t, "given") == 0 {
 			c.Given = append(c.Given, o.ID)
@@ -324,6 +332,11 @@ func c16Oracle(c *C16Case) string {
 		cur = next
 	}
 	innermost := cur
+	if c.NoHelpFlag {
+		d2 := *d
+		d2.Opts &^= uint(flags.HelpFlag)
+		d = &d2
+	}
 	b := Build(d)
 	if b.Err != nil {
 		st.Label("skip: setup error")
@@ -341,16 +354,35 @@ func c16Oracle(c *C16Case) string {
 	if len(given) > 0 {
 		st.Label("options given on the command line before --help")
 	}
-	if pm := Safely(func() { _, err = b.P.ParseArgs(append(append(given, words...), "--help")) }); pm != "" {
-		// no help at all: nothing of the visible interface is shown
-		return fmt.Sprintf("help for chain %q could not be generated (panic), the visible interface is not shown: %s", words, pm)
+	help := ""
+	if c.NoHelpFlag {
+		// the program selects the commands by parsing and writes the help itself
+		// (whether that parse succeeds does not matter: required items may be missing)
+		var hb bytes.Buffer
+		if pm := Safely(func() {
+			b.P.ParseArgs(append(given, words...))
+			b.P.WriteHelp(&hb)
+		}); pm != "" {
+			return fmt.Sprintf("help for chain %q could not be generated (panic), the visible interface is not shown: %s", words, pm)
+		}
+		if got := b.ActiveChain(); strings.Join(got, "\x00") != strings.Join(words, "\x00") {
+			st.Label("skip: the command chain was not selected")
+			return ""
+		}
+		st.Label("help written by WriteHelp on a parser without the help flag")
+		help = hb.String()
+	} else {
+		if pm := Safely(func() { _, err = b.P.ParseArgs(append(append(given, words...), "--help")) }); pm != "" {
+			// no help at all: nothing of the visible interface is shown
+			return fmt.Sprintf("help for chain %q could not be generated (panic), the visible interface is not shown: %s", words, pm)
+		}
+		fe := FlagsErr(err)
+		if fe == nil || fe.Type != flags.ErrHelp {
+			st.Label("skip: --help did not produce ErrHelp")
+			return ""
+		}
+		help = fe.Message
 	}
-	fe := FlagsErr(err)
-	if fe == nil || fe.Type != flags.ErrHelp {
-		st.Label("skip: --help did not produce ErrHelp")
-		return ""
-	}
-	help := fe.Message
 	var manBuf bytes.Buffer
 	if pm := Safely(func() { Build(d).P.WriteManPage(&manBuf) }); pm != "" {
 		return "WriteManPage panicked: " + pm
